@@ -162,6 +162,9 @@ fn generic<F: ShortMessageFactory + Copy>(carrier: &'static str, structured: boo
             }
             for (a, b) in pairs {
                 crate::mon::set_case("generic-ctor", [*tb as i64, c as i64, a as i64, b as i64, 0, 0]);
+                if crate::mon::ABORT_BUILD && !is_channel {
+                    continue;
+                }
                 let r = api_probe("ShortMessageFactory::channel_message", || {
                     built(&F::channel_message(*ty, ch(c), u7(a), u7(b)))
                 });
@@ -206,6 +209,9 @@ fn generic<F: ShortMessageFactory + Copy>(carrier: &'static str, structured: boo
         for (x, y) in common_pairs {
             {
                 {
+                    if crate::mon::ABORT_BUILD && !is_common {
+                        continue;
+                    }
                     let r = api_probe("ShortMessageFactory::system_common_message", || {
                         built(&F::system_common_message(*ty, u7(x), u7(y)))
                     });
@@ -240,6 +246,9 @@ fn generic<F: ShortMessageFactory + Copy>(carrier: &'static str, structured: boo
             }
         }
         // system_real_time_message
+        if crate::mon::ABORT_BUILD && !is_rt {
+            continue;
+        }
         let r = api_probe("ShortMessageFactory::system_real_time_message", || {
             built(&F::system_real_time_message(*ty))
         });
@@ -274,6 +283,34 @@ fn generic<F: ShortMessageFactory + Copy>(carrier: &'static str, structured: boo
 /// test_util shorthands: each argument over its full primitive range, the others at boundaries.
 fn shorthands(cfg: &Cfg, rep: &mut Report) {
     use helgoboss_midi::test_util as tu;
+    if crate::mon::ABORT_BUILD {
+        // the sweeps below include invalid arguments (expected panics, which would end the process
+        // in the panic=abort build): valid arguments only here
+        for c in 0u8..16 {
+            for a in 0u8..128 {
+                for b in [0u8, 1, 63, 64, 127] {
+                    let got = api("test_util::note_on", || {
+                        [tu::note_on(c, a, b), tu::note_off(c, a, b), tu::control_change(c, a, b), tu::short(0xA0 | c, a, b)]
+                    });
+                    rep.evaluations += 4;
+                    let want = [(0x90 | c, a, b), (0x80 | c, a, b), (0xB0 | c, a, b), (0xA0 | c, a, b)];
+                    let gotb = got.map(|g| g.map(|m| {
+                        let t = m.to_bytes();
+                        (t.0, t.1.get(), t.2.get())
+                    }));
+                    if gotb != Some(want) {
+                        crate::viol!(
+                            rep,
+                            "C06:test_util:valid-arguments:abort-build",
+                            format!("test_util::{{note_on,note_off,control_change,short}}({},{},{}) built {:?}, expected {:?}", c, a, b, gotb, want),
+                            json!({"kind":"shorthand","name":"note_on/note_off/control_change/short","args":[c, a, b]})
+                        );
+                    }
+                }
+            }
+        }
+        return;
+    }
     let step: usize = if cfg.as_c18 && !cfg.thorough { 5 } else { 1 };
     // the closures return the crate value itself so that the range observer sees it
     let rawb = |m: RawShortMessage| -> RawShortMessage { m };
